@@ -2,6 +2,8 @@
 //   line:   `<input line as hex>+`   (each field is one line typed into the REPL)
 //   output: result of the LAST input line: `R <printed residual as hex>` | `N` (no result) | `E <message>`
 //           (an error on an earlier line is reported as `E@<index> <message>`)
+//   `cvh repl clvm`: `R <printed residual as hex> <to_sexp() tree as serialised CLVM hex>` (the tree itself,
+//           not its re-read text: atoms that print like numbers keep their bytes)
 use std::rc::Rc;
 
 use crate::common::*;
@@ -11,7 +13,8 @@ use chialisp::compiler::compiler::DefaultCompilerOpts;
 use chialisp::compiler::repl::Repl;
 use clvmr::allocator::Allocator;
 
-pub fn run(_args: &[String]) {
+pub fn run(args: &[String]) {
+    let with_clvm = args.iter().any(|a| a == "clvm");
     each_line(|l| {
         let parts: Vec<&str> = l.split_whitespace().collect();
         if parts.is_empty() {
@@ -28,6 +31,13 @@ pub fn run(_args: &[String]) {
             match repl.process_line(&mut a, t) {
                 Ok(Some(bf)) => {
                     last = format!("R {}", hex::encode(bf.to_sexp().to_string().as_bytes()));
+                    if with_clvm {
+                        let mut b = Allocator::new();
+                        match chialisp::compiler::clvm::convert_to_clvm_rs(&mut b, bf.to_sexp()) {
+                            Ok(n) => last = format!("{} {}", last, hex_of_node(&b, n)),
+                            Err(_) => last = format!("{} unconvertible", last),
+                        }
+                    }
                 }
                 Ok(None) => {
                     last = "N".to_string();
